@@ -110,6 +110,8 @@ pub use prqlc_parser::parser::pr;
 pub use prqlc_parser::span::Span;
 
 mod codegen;
+#[cfg(kani)]
+pub use codegen::kani_ast;
 pub mod debug;
 mod error_message;
 pub mod ir;
